@@ -50,46 +50,52 @@ type TableBatch struct {
 
 // Op is one abstract operation.
 type Op struct {
-	Kind   string `json:"kind"`
-	Table  string `json:"table,omitempty"`
-	Index  string `json:"index,omitempty"`
-	Item   Item   `json:"item,omitempty"`
-	Key    Item   `json:"key,omitempty"`
-	Cond   string `json:"cond,omitempty"`
-	Update string `json:"update,omitempty"`
-	KeyCond string `json:"keyCond,omitempty"`
-	Filter  string `json:"filter,omitempty"`
-	Projection string `json:"projection,omitempty"`
-	Names  map[string]string `json:"names,omitempty"`
-	Values map[string]AV     `json:"values,omitempty"`
-	Limit  int   `json:"limit,omitempty"`
-	StartKey Item `json:"startKey,omitempty"`
-	Backward bool `json:"backward,omitempty"`
-	ReturnOld bool `json:"returnOld,omitempty"` // DeleteItem ReturnValues=ALL_OLD
-	ReturnOnCondFail bool `json:"returnOnCondFail,omitempty"` // v2 UpdateItem only
-	Batch  []TableBatch `json:"batch,omitempty"`
-	Schema *Schema      `json:"schema,omitempty"`
-	IndexSchema *IndexSchema `json:"indexSchema,omitempty"`
-	IndexAttrs map[string]string `json:"indexAttrs,omitempty"`
-	Failure string `json:"failure,omitempty"` // none | internal_server | deprecated
-	Via     string `json:"via,omitempty"`     // emulate | active | deactive
+	Kind             string            `json:"kind"`
+	Table            string            `json:"table,omitempty"`
+	Index            string            `json:"index,omitempty"`
+	Item             Item              `json:"item,omitempty"`
+	Key              Item              `json:"key,omitempty"`
+	Cond             string            `json:"cond,omitempty"`
+	Update           string            `json:"update,omitempty"`
+	KeyCond          string            `json:"keyCond,omitempty"`
+	Filter           string            `json:"filter,omitempty"`
+	Projection       string            `json:"projection,omitempty"`
+	Names            map[string]string `json:"names,omitempty"`
+	Values           map[string]AV     `json:"values,omitempty"`
+	Limit            int               `json:"limit,omitempty"`
+	StartKey         Item              `json:"startKey,omitempty"`
+	Backward         bool              `json:"backward,omitempty"`
+	ReturnOld        bool              `json:"returnOld,omitempty"`        // DeleteItem ReturnValues=ALL_OLD
+	ReturnOnCondFail bool              `json:"returnOnCondFail,omitempty"` // v2 UpdateItem only
+	Batch            []TableBatch      `json:"batch,omitempty"`
+	Schema           *Schema           `json:"schema,omitempty"`
+	IndexSchema      *IndexSchema      `json:"indexSchema,omitempty"`
+	IndexAttrs       map[string]string `json:"indexAttrs,omitempty"`
+	Failure          string            `json:"failure,omitempty"` // none | internal_server | deprecated
+	Via              string            `json:"via,omitempty"`     // emulate | active | deactive
+	// Blind: the request is sent to the implementation only; the reference
+	// model does not follow it (used where the model cannot: after a request
+	// DynamoDB would have rejected was accepted, and for first pages whose only
+	// purpose is to obtain a LastEvaluatedKey).
+	Blind  bool `json:"blind,omitempty"`
+	Repeat bool `json:"repeat,omitempty"` // the driver sends the same request object twice and returns the second response
 }
 
 // Error classes.
 const (
-	ErrNone        = ""
-	ErrValidation  = "Validation"
-	ErrCondFailed  = "ConditionalCheckFailed"
-	ErrNotFound    = "ResourceNotFound"
-	ErrInUse       = "ResourceInUse"
-	ErrInternal    = "InternalServerError"
-	ErrForced      = "ForcedFailure"
-	ErrSyntax      = "SyntaxError"      // returned error wrapping interpreter.ErrSyntaxError
-	ErrUnsupported = "Unsupported"      // returned error wrapping interpreter.ErrUnsupportedFeature
-	ErrSyntaxPanic = "SyntaxPanic"      // documented panic
-	ErrUnsupPanic  = "UnsupportedPanic" // documented panic
+	ErrNone         = ""
+	ErrValidation   = "Validation"
+	ErrCondFailed   = "ConditionalCheckFailed"
+	ErrNotFound     = "ResourceNotFound"
+	ErrInUse        = "ResourceInUse"
+	ErrInternal     = "InternalServerError"
+	ErrForced       = "ForcedFailure"
+	ErrSyntax       = "SyntaxError"      // returned error wrapping interpreter.ErrSyntaxError
+	ErrUnsupported  = "Unsupported"      // returned error wrapping interpreter.ErrUnsupportedFeature
+	ErrSyntaxPanic  = "SyntaxPanic"      // documented panic
+	ErrUnsupPanic   = "UnsupportedPanic" // documented panic
 	ErrRuntimePanic = "RuntimePanic"
-	ErrSDKParam    = "SDKParamValidation"
+	ErrSDKParam     = "SDKParamValidation"
 )
 
 // IndexDesc is the description of one index.
@@ -283,8 +289,8 @@ func (t *Table) SortedKeys() []string {
 // ---------------------------------------------------------------- helpers for expressions in requests
 
 type parsedReq struct {
-	cond, keyCond, filter Expr
-	update                Update
+	cond, keyCond, filter                     Expr
+	update                                    Update
 	hasCond, hasKeyCond, hasFilter, hasUpdate bool
 }
 
@@ -713,6 +719,19 @@ func (db *DB) addIndex(op Op) Result {
 	t, ok := db.Tables[op.Table]
 	if !ok {
 		return errRes(ErrNotFound, "no such table")
+	}
+	// re-declaring the type of an attribute that the table key or an existing
+	// index uses is rejected by DynamoDB; no listed property demands it
+	inUse := map[string]bool{t.Schema.Hash: true, t.Schema.Range: true}
+	for _, x := range t.Schema.Indexes {
+		if x.Name != op.IndexSchema.Name {
+			inUse[x.Hash], inUse[x.Range] = true, true
+		}
+	}
+	for k, v := range op.IndexAttrs {
+		if old, ok := t.Schema.Attrs[k]; ok && old != v && inUse[k] {
+			return Result{Spec: true, WeakWhy: "attribute definition of a key attribute in use changed"}
+		}
 	}
 	for k, v := range op.IndexAttrs {
 		t.Schema.Attrs[k] = v
